@@ -119,6 +119,7 @@ Ropen never waited: obijoin --join-with "|zcat trunc.fasta.gz" exited 0 with 19 
 					}
 					return true
 				})
+				stickyFail := false
 				for i, st := range starts {
 					key := fmt.Sprintf("%s:Start#%d:waited", funcName(p, fd), i+1)
 					ok, why := waits, "the function waits for the command itself"
@@ -173,10 +174,47 @@ Ropen never waited: obijoin --join-with "|zcat trunc.fasta.gz" exited 0 with 19 
 									}
 									if callsWait && usesIt {
 										ok, why = true, "the command is kept in a "+named.Obj().Name()+", whose method "+m.Name.Name+" waits for it and reports its failure"
+										// Wait closes the pipe: the method does not read it again afterwards — before its read of the
+										// underlying stream it returns under a test of the field the waiting branch sets
+										var flag string
+										var waitPos token.Pos
+										ast.Inspect(m.Body, func(q ast.Node) bool {
+											if c2, isC := q.(*ast.CallExpr); isC && fullName(callee(info, c2)) == "os/exec.(Cmd).Wait" {
+												waitPos = c2.Pos()
+											}
+											return true
+										})
+										ast.Inspect(m.Body, func(q ast.Node) bool {
+											if as, isA := q.(*ast.AssignStmt); isA && len(as.Lhs) == 1 && len(as.Rhs) == 1 {
+												if id, isID := ast.Unparen(as.Rhs[0]).(*ast.Ident); isID && id.Name == "true" {
+													if sel, isS := ast.Unparen(as.Lhs[0]).(*ast.SelectorExpr); isS {
+														flag = sel.Sel.Name
+													}
+												}
+											}
+											return true
+										})
+										sticky := false
+										for _, st := range m.Body.List {
+											if st.Pos() > waitPos {
+												break
+											}
+											if is, isIf := st.(*ast.IfStmt); isIf && flag != "" && strings.Contains(types.ExprString(is.Cond), flag) && leavesOrFatal(info, is.Body) {
+												sticky = true
+											}
+										}
+										if !sticky {
+											ok, why = false, ""
+											stickyFail = true
+										}
 									}
 								}
 							}
 						}
+					}
+					if !ok && stickyFail {
+						s.Fail(nil, key, st.Pos(), "the method that waits for the command reads the pipe again after Wait has closed it: the readers ask once more after the end of the data, and every input read from a command — even a successful one — ends with \"read |0: file already closed\" (obijoin -j \"|cat f\": fatal, exit 1)")
+						continue
 					}
 					if ok {
 						s.Pass(nil, key, st.Pos(), why)
